@@ -552,3 +552,32 @@ func genWild(out *bufio.Writer, rng *rand.Rand, count int) int {
 	}
 	return count
 }
+
+// genSoak (thorough tier only): one battle with a process limit above 2^20 that is not a power
+// of two, followed cycle by cycle until the queue has been full, has wrapped and has drained
+func genSoak(out *bufio.Writer, rng *rand.Rand) int {
+	p := uint64(1<<20 + 400000 + rng.Intn(100000))
+	m := uint64(40)
+	cycles := 2*p + 700000
+	cfg := gmars.SimulatorConfig{Mode: gmars.ICWS94, CoreSize: gmars.Address(m), Processes: gmars.Address(p), Cycles: gmars.Address(cycles + 10),
+		ReadLimit: gmars.Address(m), WriteLimit: gmars.Address(m), Length: 1, Distance: 1}
+	c := newAPICase(out, "soak0", "battle", cfg, false)
+	nops := 3 + rng.Intn(20)
+	var code []gmars.Instruction
+	for i := 0; i < nops; i++ {
+		code = append(code, ins(gmars.NOP, gmars.B, gmars.DIRECT, 0, gmars.DIRECT, 0))
+	}
+	code = append(code, ins(gmars.SPL, gmars.B, gmars.DIRECT, 0, gmars.DIRECT, 0), ins(gmars.JMP, gmars.B, gmars.DIRECT, m-1, gmars.DIRECT, 0))
+	w := gmars.WarriorData{Code: code}
+	c.add(&w)
+	c.spawn(0, 0)
+	for k := uint64(0); k < cycles; k++ {
+		if c.dead {
+			break
+		}
+		c.runCycle(k%500000 != 499999)
+	}
+	c.runCycle(false)
+	c.end()
+	return 1
+}
